@@ -60,6 +60,12 @@ type eoSt struct {
 	ev  []eoEvent
 }
 
+// eoMarker: at this point the parameters of a spliced piece helper are bound to the caller's arguments.
+type eoMarker struct {
+	params []types.Object
+	args   []ast.Expr
+}
+
 type eoLoop struct {
 	fn    *ast.FuncDecl
 	stmt  ast.Stmt
@@ -79,8 +85,13 @@ type eoEngine struct {
 	// non-slice AST parameter (a part of the caller's node handed to a helper, e.g. node.Arguments) ->
 	// origins of the parts passed at call sites / the calling functions
 	partOrig, partFn map[types.Object][]string
-	cases            []Obligation
-	counts           int
+	// piece helpers: methods that receive the very node the calling function works on (same concrete node
+	// type, passed as the caller's own parameter) in a statement call. Their body is analysed in place of the
+	// call, as part of the caller's case: the case keeps its key and its children keep their order.
+	pieces  map[*types.Func]*ast.FuncDecl
+	markers map[ast.Stmt]*eoMarker
+	cases   []Obligation
+	counts  int
 }
 
 func eoIsAST(t types.Type, astPkg *types.Package) bool {
@@ -201,9 +212,13 @@ func (en *eoEngine) walkFunc(c *Ctx, g *opsEng, fd *ast.FuncDecl, astPkg *types.
 	if len(roots) == 0 {
 		return
 	}
+	if en.pieces[fn] != nil {
+		return // analysed inside its callers
+	}
+	body := en.splicePieces(info, fd.Body, 0)
 	// index-loop variables: the counter of a for loop, the key of a range loop
 	loopVar := map[types.Object]ast.Stmt{}
-	ast.Inspect(fd.Body, func(n ast.Node) bool {
+	ast.Inspect(body, func(n ast.Node) bool {
 		switch f := n.(type) {
 		case *ast.ForStmt:
 			if v, dir := eoLoopDir(info, f); v != nil {
@@ -245,6 +260,32 @@ func (en *eoEngine) walkFunc(c *Ctx, g *opsEng, fd *ast.FuncDecl, astPkg *types.
 			}
 		case *ast.TypeAssertExpr:
 			return eval(st, x.X)
+		case *ast.CallExpr:
+			// an accessor of the node: a nullary method whose body is `return recv.F.G`
+			if len(x.Args) != 0 {
+				return nil
+			}
+			fsel, ok := ast.Unparen(x.Fun).(*ast.SelectorExpr)
+			if !ok {
+				return nil
+			}
+			if s := info.Selections[fsel]; s == nil || s.Kind() != types.MethodVal {
+				return nil
+			}
+			path := eoAccessorPath(g, CalleeOf(info, x))
+			if len(path) == 0 {
+				return nil
+			}
+			b := eval(st, fsel.X)
+			if b == nil {
+				return nil
+			}
+			r := b.clone()
+			if len(r.path) == 0 {
+				r.owner = opsTypeName(info.TypeOf(fsel.X))
+			}
+			r.path = append(r.path, path...)
+			return r
 		case *ast.SelectorExpr:
 			sel := info.Selections[x]
 			if sel == nil || sel.Kind() != types.FieldVal {
@@ -393,6 +434,23 @@ func (en *eoEngine) walkFunc(c *Ctx, g *opsEng, fd *ast.FuncDecl, astPkg *types.
 		},
 		IsPanic: func(s ast.Stmt) bool { return IsPanicCall(info, s) },
 		OnStmt: func(st *eoSt, s ast.Stmt) (*eoSt, bool) {
+			if mk := en.markers[s]; mk != nil {
+				refs := make([]*eoRef, len(mk.args))
+				for i, a := range mk.args {
+					refs[i] = eval(st, a)
+				}
+				for i, p := range mk.params {
+					if p == nil {
+						continue
+					}
+					if refs[i] == nil {
+						delete(st.env, p)
+					} else {
+						st.env[p] = refs[i]
+					}
+				}
+				return st, true
+			}
 			switch x := s.(type) {
 			case *ast.AssignStmt:
 				for _, r := range x.Rhs {
@@ -464,7 +522,7 @@ func (en *eoEngine) walkFunc(c *Ctx, g *opsEng, fd *ast.FuncDecl, astPkg *types.
 		}
 		paths = append(paths, pathRes{ev: st.ev})
 	}
-	w.Run(fd.Body, &eoSt{env: map[types.Object]*eoRef{}})
+	w.Run(body, &eoSt{env: map[types.Object]*eoRef{}})
 	fname := en.name + "." + fd.Name.Name
 	if w.Overflow {
 		en.cases = append(en.cases, Obligation{Key: fname + "|<paths>", Pos: c.Pos(fd.Pos()), Status: Undecided, Detail: "path enumeration overflow"})
@@ -565,6 +623,213 @@ func (en *eoEngine) walkFunc(c *Ctx, g *opsEng, fd *ast.FuncDecl, astPkg *types.
 	}
 }
 
+// eoAccessorPath: the field path a nullary method returns (`return self.A.B` -> [A B]); nil for any other body.
+func eoAccessorPath(g *opsEng, fn *types.Func) []string {
+	fd := g.decls[fn]
+	if fn == nil || fd == nil || fd.Recv == nil || len(fd.Recv.List) != 1 || len(fd.Recv.List[0].Names) != 1 || len(fd.Body.List) != 1 {
+		return nil
+	}
+	rs, ok := fd.Body.List[0].(*ast.ReturnStmt)
+	if !ok || len(rs.Results) != 1 {
+		return nil
+	}
+	info := g.info(fd)
+	recv := info.Defs[fd.Recv.List[0].Names[0]]
+	var path []string
+	e := ast.Unparen(rs.Results[0])
+	for {
+		switch x := e.(type) {
+		case *ast.SelectorExpr:
+			if s := info.Selections[x]; s == nil || s.Kind() != types.FieldVal {
+				return nil
+			}
+			path = append([]string{x.Sel.Name}, path...)
+			e = ast.Unparen(x.X)
+			continue
+		case *ast.StarExpr:
+			e = ast.Unparen(x.X)
+			continue
+		case *ast.Ident:
+			if recv != nil && info.Uses[x] == recv {
+				return path
+			}
+		}
+		return nil
+	}
+}
+
+// findPieces determines the piece helpers of the engine (see eoEngine.pieces).
+func (en *eoEngine) findPieces(c *Ctx, g *opsEng, astPkg *types.Package) {
+	en.pieces = map[*types.Func]*ast.FuncDecl{}
+	en.markers = map[ast.Stmt]*eoMarker{}
+	p := c.Pkg(en.rel)
+	info := p.TypesInfo
+	isNodeStruct := func(t types.Type) bool {
+		n, ok := types.Unalias(t).(*types.Named)
+		if !ok || n.Obj().Pkg() != astPkg {
+			return false
+		}
+		_, isStruct := n.Underlying().(*types.Struct)
+		return isStruct
+	}
+	cand := map[*types.Func]*ast.FuncDecl{}
+	for _, fd := range AllFuncDecls(p) {
+		fn, _ := info.Defs[fd.Name].(*types.Func)
+		if fn == nil || fd.Body == nil {
+			continue
+		}
+		sig := fn.Type().(*types.Signature)
+		if sig.Recv() == nil || opsTypeName(sig.Recv().Type()) != en.recv || sig.Results().Len() != 0 || sig.Variadic() {
+			continue
+		}
+		hasNode := false
+		for i := 0; i < sig.Params().Len(); i++ {
+			if isNodeStruct(sig.Params().At(i).Type()) {
+				hasNode = true
+			}
+		}
+		if !hasNode {
+			continue
+		}
+		clean := true
+		ast.Inspect(fd.Body, func(n ast.Node) bool {
+			switch n.(type) {
+			case *ast.FuncLit:
+				return false
+			case *ast.ReturnStmt, *ast.DeferStmt:
+				clean = false
+			}
+			return clean
+		})
+		if clean {
+			cand[fn] = fd
+		}
+	}
+	if len(cand) == 0 {
+		return
+	}
+	// every call of a candidate must be a statement call inside an engine method that passes one of its own
+	// parameters, of the identical node type
+	called := map[*types.Func]bool{}
+	for _, fd := range AllFuncDecls(p) {
+		fn, _ := info.Defs[fd.Name].(*types.Func)
+		if fn == nil || fd.Body == nil {
+			continue
+		}
+		sig := fn.Type().(*types.Signature)
+		isParam := map[types.Object]bool{}
+		if sig.Recv() != nil && opsTypeName(sig.Recv().Type()) == en.recv {
+			for i := 0; i < sig.Params().Len(); i++ {
+				isParam[sig.Params().At(i)] = true
+			}
+		}
+		stmtCalls := map[*ast.CallExpr]bool{}
+		ast.Inspect(fd.Body, func(n ast.Node) bool {
+			if es, ok := n.(*ast.ExprStmt); ok {
+				if call, ok := ast.Unparen(es.X).(*ast.CallExpr); ok {
+					stmtCalls[call] = true
+				}
+			}
+			return true
+		})
+		ast.Inspect(fd.Body, func(n ast.Node) bool {
+			call, ok := n.(*ast.CallExpr)
+			if !ok {
+				return true
+			}
+			cal := CalleeOf(info, call)
+			if cal == nil || cand[cal] == nil {
+				return true
+			}
+			okSite := stmtCalls[call] && cal != fn && !call.Ellipsis.IsValid()
+			if okSite {
+				csig := cal.Type().(*types.Signature)
+				passes := false
+				for i, a := range call.Args {
+					if i >= csig.Params().Len() || !isNodeStruct(csig.Params().At(i).Type()) {
+						continue
+					}
+					id, isId := ast.Unparen(a).(*ast.Ident)
+					if isId && isParam[info.Uses[id]] && types.Identical(info.TypeOf(a), csig.Params().At(i).Type()) {
+						passes = true
+					}
+				}
+				okSite = passes
+			}
+			if !okSite {
+				delete(cand, cal)
+			} else {
+				called[cal] = true
+			}
+			return true
+		})
+	}
+	for fn, fd := range cand {
+		if called[fn] {
+			en.pieces[fn] = fd
+		}
+	}
+	// method values / other references: any use of the method object outside a call position disqualifies
+	for _, fd := range AllFuncDecls(p) {
+		if fd.Body == nil {
+			continue
+		}
+		callFun := map[ast.Expr]bool{}
+		ast.Inspect(fd.Body, func(n ast.Node) bool {
+			if call, ok := n.(*ast.CallExpr); ok {
+				callFun[ast.Unparen(call.Fun)] = true
+			}
+			return true
+		})
+		ast.Inspect(fd.Body, func(n ast.Node) bool {
+			if sel, ok := n.(*ast.SelectorExpr); ok && !callFun[sel] {
+				if cal, ok := info.Uses[sel.Sel].(*types.Func); ok {
+					delete(en.pieces, cal)
+				}
+			}
+			return true
+		})
+	}
+}
+
+// splicePieces: body with every statement call of a piece helper replaced by a marker (binding the helper's
+// parameters to the arguments) followed by the helper's body.
+func (en *eoEngine) splicePieces(info *types.Info, body *ast.BlockStmt, depth int) *ast.BlockStmt {
+	if len(en.pieces) == 0 || depth > 3 {
+		return body
+	}
+	return opsRewriteStmts(body, true, func(s ast.Stmt) []ast.Stmt {
+		es, ok := s.(*ast.ExprStmt)
+		if !ok {
+			return nil
+		}
+		call, ok := ast.Unparen(es.X).(*ast.CallExpr)
+		if !ok {
+			return nil
+		}
+		cal := CalleeOf(info, call)
+		pd := en.pieces[cal]
+		if pd == nil {
+			return nil
+		}
+		mk := &eoMarker{}
+		i := 0
+		for _, f := range pd.Type.Params.List {
+			for _, nm := range f.Names {
+				if i < len(call.Args) {
+					mk.params = append(mk.params, info.Defs[nm])
+					mk.args = append(mk.args, call.Args[i])
+				}
+				i++
+			}
+		}
+		m := opsMarker()
+		en.markers[m] = mk
+		inner := en.splicePieces(info, pd.Body, depth+1)
+		return []ast.Stmt{m, &ast.BlockStmt{Lbrace: pd.Body.Lbrace, List: inner.List, Rbrace: pd.Body.Rbrace}}
+	})
+}
+
 func (en *eoEngine) resolveOrigin(l *eoLoop) string {
 	if l.list == nil {
 		return ""
@@ -603,6 +868,7 @@ func ruleEvalOrder(c *Ctx) []Obligation {
 		en.origFn = map[types.Object][]string{}
 		en.partOrig = map[types.Object][]string{}
 		en.partFn = map[types.Object][]string{}
+		en.findPieces(c, g, astPkg)
 		for _, fd := range AllFuncDecls(c.Pkg(en.rel)) {
 			en.walkFunc(c, g, fd, astPkg)
 		}
